@@ -632,9 +632,20 @@ func (tw *tokenWorld) userinfo(ch *kernel.Chooser) string {
 			return ""
 		}
 	}
-	r := bearerGet(w, "/userinfo", tok)
+	// how the token travels is the client's choice: Authorization header, form of a POST, or URL query
+	how := ch.Pick("header", "header", "post-form", "query")
+	var r *world.Resp
+	switch how {
+	case "post-form":
+		r = w.PostForm("/userinfo", url.Values{"access_token": {tok}}, world.Creds{Mode: "none"})
+	case "query":
+		r = rawGet(w, "/userinfo?"+url.Values{"access_token": {tok}}.Encode())
+	default:
+		r = bearerGet(w, "/userinfo", tok)
+	}
+	tw.o.Probe("userinfo-token-by-" + how)
 	w.Store.Inject = nil
-	desc := fmt.Sprintf("userinfo with %s token of %s (live=%v torn=%v) -> %d", kind, g.client, live, torn, statusOf(r))
+	desc := fmt.Sprintf("userinfo (token by %s) with %s token of %s (live=%v torn=%v) -> %d", how, kind, g.client, live, torn, statusOf(r))
 	if torn && r.Ex != nil && r.Ex.Panic == "" {
 		if r.Status == 200 || strings.Contains(r.Body, "@sim") {
 			tw.viol("C08", "dead-token-honoured", "userinfo-torn", "%s: claims disclosed although the storage call failed: %s", desc, firstLine(r.Body))
